@@ -42,13 +42,13 @@ structure ClockCfg where
   activeHigh : Option Bool := none
   deriving Repr, Inhabited, DecidableEq
 
-/-- `Clock::deriveClock(cfg)`: `DerivedClock::DerivedClock(parent)` (`hlim/Clock.cpp:243-256`) copies name, reset name, trigger event,
-    phase synchronisation and the register attributes of the parent, then `frontend/Clock.cpp:190-229` (`applyConfig`) overrides the
+/-- `Clock::deriveClock(cfg)`: `DerivedClock::DerivedClock(parent)` (`hlim/Clock.cpp:243-256`) copies name, reset name, trigger event
+    and the register attributes of the parent (the phase relation to the parent keeps its default `true`: fix of F21), then `frontend/Clock.cpp:190-229` (`applyConfig`) overrides the
     fields the configuration gives. -/
 def deriveDecl (parentIdx : Nat) (parent : ClockDecl) (mul : Rat) (cfg : ClockCfg) : ClockDecl :=
   { parent := some parentIdx, freqOrMul := mul,
     name := cfg.name.getD parent.name, resetName := cfg.resetName.getD parent.resetName,
-    trig := cfg.trig.getD parent.trig, phaseSync := cfg.phaseSync.getD parent.phaseSync,
+    trig := cfg.trig.getD parent.trig, phaseSync := cfg.phaseSync.getD true,
     rstType := cfg.rstType.getD parent.rstType, activeHigh := cfg.activeHigh.getD parent.activeHigh,
     hasNodes := false }
 
